@@ -20,6 +20,8 @@ from typing import Any, Dict, List, Optional
 ROOT = os.path.dirname(os.path.dirname(os.path.abspath(__file__)))
 sys.path.insert(0, ROOT)
 PY = os.path.join(ROOT, ".venv", "bin", "python")
+if not os.path.exists(PY):  # running from a snapshot of /verif (vp run): the overlay venv lives in /verif
+    PY = "/verif/.venv/bin/python"
 
 PROPS: Dict[str, List[str]] = {
     "C01": ["c01_step"],
